@@ -116,7 +116,8 @@ class BigQuery(Dialect):
 
     # https://cloud.google.com/bigquery/docs/reference/standard-sql/navigation_functions#percentile_cont
     COERCES_TO = {
-        **TypeAnnotator.COERCES_TO,
+        # copy the sets as well: they are extended in place below and must not leak into TypeAnnotator.COERCES_TO
+        **{k: set(v) for k, v in TypeAnnotator.COERCES_TO.items()},
         exp.DType.BIGDECIMAL: {exp.DType.DOUBLE},
     }
     COERCES_TO[exp.DType.DECIMAL] |= {exp.DType.BIGDECIMAL}
